@@ -60,8 +60,9 @@ def image_case(src, asan, idx, seed, tier):
         first_half = idx < nx or 2 * nx <= idx < 2 * nx + len(corrupt.SB_VARIANTS) or 2 * nx + 2 * len(corrupt.SB_VARIANTS) <= idx < nd_ - len(corrupt.DX_VARIANTS)
         name, opts, size = corrupt.IMG_CONFIGS[0 if first_half else 2]
     gdv = None
-    if nd_ <= idx < nd_ + len(corrupt.GD_VARIANTS):
-        gdv, cfgname = corrupt.GD_VARIANTS[idx - nd_]
+    extra = [(corrupt.op_gd_variant, v, c) for v, c in corrupt.GD_VARIANTS] + [(corrupt.op_extent_cycle, v, c) for v, c in corrupt.EXTENT_CYCLE_VARIANTS]
+    if nd_ <= idx < nd_ + len(extra):
+        gdop, gdv, cfgname = extra[idx - nd_]
         name, opts, size = [c for c in corrupt.IMG_CONFIGS if c[0] == cfgname][0]
     base = corrupt.build_image(src, WORK, name, opts, size, 1)
     img = os.path.join(WORK, "m_%d.img" % idx)
@@ -71,7 +72,7 @@ def image_case(src, asan, idx, seed, tier):
     if gdv:
         # descriptor fields at the values that steer relocation / table-length arithmetic (thorough-tier findings: e2fsck -n
         # relocating an inode table forever, e2image's table length wrapping below zero)
-        desc = corrupt.corrupt(base, img, r, directed=(corrupt.op_gd_variant, gdv))
+        desc = corrupt.corrupt(base, img, r, directed=(gdop, gdv))
     elif idx < 2 * nx:
         # boundary values of one attribute-block entry, checksums valid
         desc = corrupt.corrupt(base, img, r, directed=(corrupt.op_xattr_block, corrupt.XATTR_VARIANTS[idx % nx]))
@@ -137,10 +138,16 @@ def journal_case(src, asan, idx, seed, tier):
     d = bytearray(open(img, "rb").read())
     bs = jimg.fs.bs
     desc = []
-    if idx % 8 == 7:
-        # every log block a valid descriptor of the expected sequence: the scan pass never meets an end
+    if idx % 8 in (6, 7):
+        # every log block a valid descriptor (or revoke) block of the expected sequence: no pass ever meets an end
         cfgc = Cfg(jimg.bs, jimg.first, jimg.maxlen, jimg.uuid, 0, 5, 0)
-        blk, _, _ = enc_desc(cfgc, 5, [{"blk": targets[0], "data": b"\x55" * bs}])
+        if idx % 8 == 7:
+            blk, _, _ = enc_desc(cfgc, 5, [{"blk": targets[0], "data": b"\x55" * bs}])
+            what = "descriptor"
+        else:
+            blk = enc_revoke(cfgc, 5, [targets[0], targets[1]])
+            blk = blk[0] if isinstance(blk, tuple) else blk
+            what = "revoke"
         for lb in range(jimg.first, jimg.maxlen):
             d[jimg.map[lb] * bs:(jimg.map[lb] + 1) * bs] = blk
         jsb = bytearray(d[jimg.map[0] * bs:jimg.map[0] * bs + 1024])
@@ -154,11 +161,17 @@ def journal_case(src, asan, idx, seed, tier):
         env = e2v.tool_env(src)
         T = lambda p: os.path.join(asan, p)
         bad = []
-        rc, why = run_san([T("e2fsck/e2fsck"), "-fy", img], env, timeout=40)
-        if why:
-            bad.append({"invocation": "e2fsck -fy journal", "why": why})
+        nrun = 0
+        pristine = bytes(d)
+        for label, cmd in (("e2fsck -fy journal", [T("e2fsck/e2fsck"), "-fy", img]), ("debugfs logdump", [T("debugfs/debugfs"), "-R", "logdump -a", img]),
+                           ("debugfs jr", [T("debugfs/debugfs"), "-w", "-R", "jr", img]), ("e2fsck -fn", [T("e2fsck/e2fsck"), "-fn", img])):
+            open(img, "wb").write(pristine)
+            rc, why = run_san(cmd, env, timeout=40)
+            nrun += 1
+            if why:
+                bad.append({"invocation": label, "why": why})
         os.unlink(img)
-        return {"kind": "journal", "base": name, "journal": "none", "note": "every log block is a descriptor block of the expected sequence (no commit anywhere)", "damage": [], "case_index": idx}, bad, 1
+        return {"kind": "journal", "base": name, "journal": "none", "note": "every log block is a %s block of the expected sequence (no commit anywhere)" % what, "damage": [], "case_index": idx}, bad, nrun
     for _ in range(r.randint(1, 5)):
         lb = r.randrange(min(len(jimg.map), 40))
         o = jimg.map[lb] * bs + r.choice([0, 1, 4, 8, 12, 13, 16, 20, 24, 0x1C, 0x20, r.randrange(bs)])
@@ -496,7 +509,7 @@ def run(res, replay=None):
     rows, dbad = dirwalk_corr(src, hexe, mexe, seed, 40 if tier == "quick" else 2000)
     erows, ebad = ea_value_corr(src, mexe, seed, 6 if tier == "quick" else 150)
     rrows, rbad = robust_corr(src, mexe, seed, tier)
-    n_img, n_j, n_a = (94, 16, 20) if tier == "quick" else (4000, 1500, 800)
+    n_img, n_j, n_a = (100, 16, 20) if tier == "quick" else (4000, 1500, 800)
     with concurrent.futures.ThreadPoolExecutor(14) as ex:
         o1 = list(ex.map(lambda i: image_case(src, asan, i, seed, tier), range(n_img)))
         o2 = list(ex.map(lambda i: journal_case(src, asan, i, seed, tier), range(n_j)))
